@@ -46,22 +46,22 @@ CLAIMS = {
    technique="Coq proofs of history-independence on a store model + fork-per-case before/after differential testing with a global-state monitor"),
  "C11": dict(
    category="proof",
-   text="Coq theorems over the call-skeleton model: the pending-prefix slot is empty after every call whatever the setup functions do (accept/reject/raise), hence the outcome of a call is identical after any call history (memoryless), and returned bytes come from the current input only; a refutation witness shows the originally pinned code (no reset on raise) violates this - that defect was confirmed on the real code, repaired by a fix: commit and recorded as fixed. Tie: trace-driven correspondence incl. the pending-slot state after each call; search oracle: outcomes after random call histories (valid/invalid/truncated/prefix-only/raising/prefix+raising) vs outcomes from the cleared state; corpus of the minimised historical failures runs first.",
+   text="Coq theorems over the call-skeleton model: the pending-prefix slot is empty after every call whatever the setup functions do (accept/reject/raise), hence the outcome of a call is identical after any call history (memoryless), and returned bytes come from the current input only; a refutation witness shows the originally pinned code (no reset on raise) violates this - that defect was confirmed on the real code, repaired by a fix: commit and recorded as fixed. Tie: trace-driven correspondence incl. the pending-slot state after each call; search oracle: outcomes after random call histories (valid/invalid/truncated/prefix-only/long prefix runs/raising/prefix+raising, and suffix-reading '&' specifications called with their code buffer) vs outcomes from the cleared state, list-valued and class-level attributes included; corpus of the minimised historical failures runs first.",
    design_ref="DESIGN.md §4 C11",
    note="Trusted: Coq kernel; Dec model; harness/decmodel.py and c11.py. 'Fresh' = cleared pending slot on the same object; other global state probed by evaluating the pool in two orders.",
    technique="Coq invariant proof over call-skeleton model + history differential testing"),
  "C17": dict(
    category="proof",
-   text="Coq theorem: the dispatch skeleton (tree walk, leaf scan, prefix recursion, pending slot) is total - it returns an instruction or none, never raises and never loops - provided setup functions only accept or reject, and what it returns is well formed (built by a table spec whose fixed bits match, positive length, bytes = input prefix). Partial by nature: the hypothesis about ~4700 hand-written setup/format/semantics functions cannot be carried by a Gallina model; it is enumerated per run over every live specification (boundary and pseudo-random field values) through decode, well-formedness, str/toks, every Formatter, pickle round-trip and semantics; every crash site is a keyed known finding (isa|stage|function|exception), anything unlisted is a violation.",
+   text="Coq theorem: the dispatch skeleton (tree walk, leaf scan, prefix recursion, pending slot) is total - it returns an instruction or none, never raises and never loops - provided setup functions only accept or reject, and what it returns is well formed (built by a table spec whose fixed bits match, positive length, bytes = input prefix). Partial by nature: the hypothesis about ~4700 hand-written setup/format/semantics functions cannot be carried by a Gallina model; it is enumerated per run over every live specification (boundary and pseudo-random field values) through decode, well-formedness, str/toks, every Formatter, pickle round-trip and semantics on a fresh map and on the map left by the instructions of the same and the previous specification (chains run in forked children); every crash site is a keyed known finding (isa|stage|function|exception), anything unlisted is a violation.",
    design_ref="DESIGN.md §4 C17",
    note="Trusted: Coq kernel; Dec model; enumeration harness. The enumeration is testing, not proof.",
    technique="Coq totality proof of dispatch skeleton + exhaustive per-spec enumeration of hook totality with keyed known findings"),
  "C01": dict(
    category="proof",
-   text="Coq theorems, all widths: every cst operator (add/sub/mul, and/or/xor, shifts by any amount incl. >= width and sign-flagged counts, eq/neq, unsigned and declared-signedness comparisons, widening multiply, unsigned div/mod, neg/not, slices, extensions) computes the reference fixed-width result (denote/ref_binop written from the property text); and eval_sound: for every well-sized covered tree (any shape) and every valuation, if evaluation yields a constant it is denote's value with the tree's width. Tie on every run: cst model vs cst class exhaustively for widths 1..3 (all sign-flag combinations, 22 operators) + random wide widths; eval model vs implementation (value, width, sign flag) and the implementation's built/simplified trees vs denote inside the Coq kernel; independent Python interpreter over recipes for search and shrinking. Simplifier rewrite rules are covered end to end (implementation result trees evaluated by denote), not rule by rule. Eleven genuine defects found by this check were repaired (fix: commits), two are listed as known findings.",
+   text="Coq theorems, all widths: every cst operator (add/sub/mul, and/or/xor, shifts by any amount incl. >= width and sign-flagged counts, eq/neq, unsigned and declared-signedness comparisons, widening multiply, unsigned div/mod, neg/not, slices, extensions) computes the reference fixed-width result (denote/ref_binop written from the property text); and eval_sound: for every well-sized covered tree (any shape) and every valuation, if evaluation yields a constant it is denote's value with the tree's width. Tie on every run: cst model vs cst class exhaustively for widths 1..3 (all sign-flag combinations, 22 operators) + random wide widths; eval model vs implementation (value, width, sign flag) and the implementation's built/simplified trees vs denote inside the Coq kernel; independent Python interpreter over recipes for search and shrinking. The simplifier's rewrite rules are modelled one by one (Amoco.Exp.Rules / Rules2: the 16 rules of eqn1_helpers / eqn2_helpers - negation rules, +/- re-association, constant merging, neutral and absorbing constants, mask->slice, constant shifts->composition or 0, ==bit, x op x, part-wise logic on compositions - plus slice pushing in slc.simplify and constant / equal-branch conditionals in tst.simplify) and each is proved to keep width and meaning for every operand tree, width and valuation (C01_simplifier_rules_sound, C01_slice_and_conditional_rules_sound, chains of rules too); the printed-form 'x op x' rule is proved for identical operands and refuted with a witness for operands that only print alike. Rule tie on every run: ~3 500 raw nodes (widths 1..128, boundary constants, every mask position / shift amount class) go through the real eqn1_helpers / eqn2_helpers / slc.simplify / tst.simplify and through the model; the returned trees are compared structurally by the Coq kernel, together with nodes on which no rule may fire. End to end, implementation result trees are also evaluated by denote. Eleven genuine defects found by this check were repaired (fix: commits), two are listed as known findings.",
    design_ref="DESIGN.md §4 C01",
    note="Trusted: Coq kernel incl. vm_compute; harness/exptree.py (generator, dump walker, Python reference), harness/c01.py tree->Gallina translation. Outside the covered fragment: signed div/mod, rotations >= width, floats, mem/ptr, vec.",
-   technique="Coq proofs (cst operators, eval soundness vs reference semantics) + kernel-evaluated correspondence + differential testing with shrinking"),
+   technique="Coq proofs (cst operators, eval soundness, soundness of every modelled rewrite rule vs reference semantics) + kernel-evaluated correspondence (values, trees, rule by rule) + differential testing with shrinking"),
  "C12": dict(
    category="proof",
    text="Coq theorems: comp slice assignment (parts dict + cut) keeps an exact tiling of [0,size) for every assignment and every assignment sequence; evaluation returns exactly the tree's width; every constant operator returns the dictated width (operand / 1 / double). Tie: slice-assignment sequences on real comp objects vs the parts model (vm_compute, incl. part sources and offsets, smask consistency), widths and tilings of recipes through construction, simplify (plain, bitslice, widening) and eval under concrete, partial and symbolic environments with the complexity threshold off/small, under a memory limit.",
